@@ -325,7 +325,7 @@ class StreamRng:
             raise RuntimeError("draw pattern not modelled")
         random.sample, random.shuffle, random.uniform = sample, shuffle, uniform
         random.random = unsupported
-        random.choice = unsupported
+        random.choice = lambda seq: seq[self.rb(len(seq))]
         return self
 
     def __exit__(self, *exc):
@@ -344,7 +344,7 @@ def replay_generators(ctx, drv):
     rng = random.Random(ctx.seed * 23 + 5)
     jobs = []
     for k in range(400 if quick else 8000):
-        which = rng.choice(["combine", "haystack", "blockers1", "blockers2", "binbin", "binmono"])
+        which = rng.choice(["combine", "haystack", "blockers1", "blockers2", "binbin", "binmono", "simplify", "simplify"])
         if which == "combine":
             a = rng.choice([2, 3, 4, 8, 16, 24, 25, 26, 30])
             b = a + rng.choice([0, 1, 3, 10])
@@ -368,6 +368,23 @@ def replay_generators(ctx, drv):
             fn = PR.gen_binomial_times_binomial if which == "binbin" else PR.gen_binomial_times_monomial
             call = lambda p=params, fn=fn: fn(min_vars=p[0], max_vars=p[1], simple_variables=bool(p[2]),
                                              powers_probability=p[3] / 100, like_variables_probability=p[4] / 100)
+        elif which == "simplify":
+            nt = rng.choice([2, 2, 3, 4, 5, 6, 8, 12, 20])
+            scaling = rng.choice([0.3, 0.5, 1.0])
+            nl = max(2, int(nt * scaling))
+            pcts = [rng.choice([0, 25, 33, 50, 66, 80, 100]) for _ in range(6)]   # pp ovp np sp svp gp
+            if any((x / 100) * 100 != x for x in pcts):
+                pcts = [50, 50, 100, 50, 50, 100]
+            opc = rng.choice([0, 0, 1, 2, 3, 4, 5])
+            op = {0: None, 1: "+", 2: "-", 3: "*", 4: ["+", "-"], 5: ["+", "*"]}[opc]
+            na = rng.choice([99, 99, 0, 1, 3, 5])
+            ov = rng.randint(0, 1)
+            params = [nt, nl, ov, opc] + pcts + [na]
+            call = lambda p=params, op=op, scaling=scaling: PR.gen_simplify_multiple_terms(
+                p[0], optional_var=bool(p[2]), op=op, inner_terms_scaling=scaling, powers_probability=p[4] / 100,
+                optional_var_probability=p[5] / 100, noise_probability=p[6] / 100, shuffle_probability=p[7] / 100,
+                share_var_probability=p[8] / 100, grouping_noise_probability=p[9] / 100,
+                noise_terms=None if p[10] == 99 else p[10])
         elif which == "blockers1":
             params = [rng.choice([1, 2, 3, 5, 10, 22, 23]), rng.choice([0, 50, 100])]
             call = lambda p=params: PR.gen_move_around_blockers_one(p[0], p[1] / 100)
@@ -409,7 +426,7 @@ def replay_generators(ctx, drv):
         real = [x for x in rt[1][:-1]] if rt[0] == "toks" else None
         if real is None or mt[1] != real or toks[0] != f"cx={cx}":
             diffs.append(dict(rec, impl=text, complexity=cx, model=a[:300]))
-        elif toks[1] != "ok=true" or toks[2] != "like=true":
+        elif toks[1] != "ok=true" or (toks[2] != "like=true" and which != "simplify"):
             diffs.append(dict(rec, impl=text, model_flags=toks[1:3], problem="model shape not well formed / no like-term pair"))
         try:
             if not (isinstance(cx, int) and cx > 0):
